@@ -119,6 +119,24 @@ fn history(cfg: &Cfg, rep: &mut Report, kind: Kind, h: u64, ledgers: usize) {
     let mut checkpoint_ledgers: Vec<u32> = vec![];
     let q_votes = |a: usize, l: u32| -> Result<u128, Fail> { invoke(e, &c, "get_votes_at_checkpoint", args!(e, u[a], l)) };
     let q_total = |l: u32| -> Result<u128, Fail> { invoke(e, &c, "get_total_supply_at_checkpoint", args!(e, l)) };
+    // before anything was ever minted: everything answers zero, now and for every past ledger
+    {
+        let t: u128 = invoke(e, &c, "get_total_supply", args!(e)).must("get_total_supply");
+        rep.check("ref", t == 0, &format!("C13/ref/{}/deploy/get_total_supply", kind.name()), || format!("total supply of votes before the first mint is {t}"));
+        for x in 0..n {
+            let v: u128 = invoke(e, &c, "get_votes", args!(e, u[x])).must("get_votes");
+            rep.check("ref", v == 0, &format!("C13/ref/{}/deploy/get_votes", kind.name()), || format!("votes of {x} before the first mint: {v}"));
+        }
+        let now = w.ledger();
+        for l in [0u32, 1, now / 2, now.saturating_sub(1)] {
+            if l < now {
+                let r = q_total(l);
+                rep.check("past", r == Ok(0), &format!("C13/past/{}/deploy/get_total_supply_at_checkpoint", kind.name()), || format!("past total at ledger {l} before the first mint: {r:?}"));
+                let r = q_votes(rng.idx(n), l);
+                rep.check("past", r == Ok(0), &format!("C13/past/{}/deploy/get_votes_at_checkpoint", kind.name()), || format!("past votes at ledger {l} before the first mint: {r:?}"));
+            }
+        }
+    }
     for li in 0..ledgers {
         let cur = w.ledger();
         let nops = 1 + rng.idx(6);
